@@ -1048,3 +1048,68 @@ func (P *Prog) ownUseSites(ca *catchAnalysis) []dispatchSite {
 	}
 	return out
 }
+
+// dispatchLike: the call runs a child node: a dispatch proper (dispatchCallee), or a static call of a module
+// helper that is handed a node context and dispatches on it (`subCtx.RunChild(&key, data, ptr, typ, child.process)`,
+// `eachItem(sub, n, visit, at)`), possibly through further helpers.
+func (P *Prog) dispatchLike(ci *callInfo) bool {
+	if ci == nil {
+		return false
+	}
+	ca := P.sharedCatchAnalysis()
+	if _, ok := ca.dispatchCallee(ci); ok {
+		return true
+	}
+	if ci.static == nil || ci.static.Blocks == nil || !inModule(funcPkgPath(ci.static)) {
+		return false
+	}
+	hasCtx := false
+	for _, a := range ci.args() {
+		if ca.isCtxVal(a) {
+			hasCtx = true
+		}
+	}
+	return hasCtx && P.helperDispatches(ci.static, 0)
+}
+
+func (P *Prog) helperDispatches(fn *ssa.Function, depth int) bool {
+	if P.helperDispMemo == nil {
+		P.helperDispMemo = map[*ssa.Function]bool{}
+	}
+	if v, ok := P.helperDispMemo[fn]; ok {
+		return v
+	}
+	P.helperDispMemo[fn] = false
+	if depth > 3 {
+		return false
+	}
+	if _, isNode := P.roles.Dispatch[fn]; isNode {
+		return false
+	}
+	for _, pl := range P.roles.Pipelines {
+		if pl == fn {
+			return false
+		}
+	}
+	ca := P.sharedCatchAnalysis()
+	res := false
+	eachInstr(fn, func(_ *ssa.BasicBlock, _ int, in ssa.Instruction) {
+		ci := callOf(in)
+		if ci == nil || res {
+			return
+		}
+		if _, ok := ca.dispatchCallee(ci); ok {
+			res = true
+			return
+		}
+		if ci.static != nil && ci.static.Blocks != nil && inModule(funcPkgPath(ci.static)) {
+			for _, a := range ci.args() {
+				if ca.isCtxVal(a) && P.helperDispatches(ci.static, depth+1) {
+					res = true
+				}
+			}
+		}
+	})
+	P.helperDispMemo[fn] = res
+	return res
+}
